@@ -41,15 +41,20 @@ type tierCfg struct {
 	nSectors, nRandomRanges int
 	primN                   int
 	minCorrupt              int64
+	streamN                 string // MerkleStream<streamN>.cfg: exhaustive small-sector model of the streaming verifier
+	streamStates            int64
+	nStreamLong, nStreamRnd int
 }
 
 func cfgFor(thorough bool) tierCfg {
 	if thorough {
 		return tierCfg{rangeN: 56, freeN: 11, freePermK: 4, appendN: 128, appendK: 6, writes: [][3]int{{5, 3, 2}, {3, 4, 3}},
-			xcheckN: 16, nSectors: 4, nRandomRanges: 400, primN: 200000, minCorrupt: 200}
+			xcheckN: 16, nSectors: 4, nRandomRanges: 400, primN: 200000, minCorrupt: 200,
+			streamN: "16", nStreamLong: 60, nStreamRnd: 200}
 	}
 	return tierCfg{rangeN: 32, freeN: 8, freePermK: 4, appendN: 64, appendK: 4, writes: [][3]int{{4, 3, 2}},
-		xcheckN: 16, nSectors: 3, nRandomRanges: 36, primN: 20000, minCorrupt: 50}
+		xcheckN: 16, nSectors: 3, nRandomRanges: 36, primN: 20000, minCorrupt: 50,
+		streamN: "8", nStreamLong: 9, nStreamRnd: 24}
 }
 
 func parseLines[T any](c *vlib.Ctx, res *vlib.TLCResult, tag string) []T {
@@ -197,6 +202,129 @@ func sectorParams(r *rand.Rand, cfg tierCfg) (ranges [][2]int, roots []int) {
 	return
 }
 
+// streamParams: the cases of the streaming verifier at sector level. Honest ranges [s,e): EVERY pair with
+// s and e within 8 leaves of the same anchor 0, 32768 (the middle) or 65536 (so the first and the last leaves
+// of a sector are always there), a seeded sample of ranges reaching from one anchor to another and of short
+// ranges anywhere. For each of them: the claimed end altered by every d in -8..8, the claimed start altered
+// likewise, both shifted, each with the honest data and the honest proof of [s,e) and with the honest proof
+// of the claimed range; the stream cut at every subtree boundary of the claimed range's walk (including
+// "nothing"), in the middle of a leaf and one leaf short; over-long streams.
+type streamParam struct{ s, e, s2, e2, ln, pf int }
+
+func nextSubtree(i, j int) int {
+	ideal := 1 << 30
+	if i != 0 {
+		ideal = i & -i
+	}
+	mx := 1
+	for mx*2 <= j-i {
+		mx *= 2
+	}
+	if ideal > mx {
+		return mx
+	}
+	return ideal
+}
+
+func streamParams(r *rand.Rand, cfg tierCfg) (out []streamParam) {
+	const L = LPS
+	type rg struct {
+		s, e int
+		full bool
+	}
+	var hon []rg
+	near := func(a int) (ps []int) {
+		for x := a - 8; x <= a+8; x++ {
+			if x >= 0 && x <= L {
+				ps = append(ps, x)
+			}
+		}
+		return
+	}
+	anchors := []int{0, L / 2, L}
+	for _, a := range anchors {
+		for _, s := range near(a) {
+			for _, e := range near(a) {
+				if s < e {
+					hon = append(hon, rg{s, e, true})
+				}
+			}
+		}
+	}
+	for i := 0; i < cfg.nStreamLong; i++ {
+		a, b := [][2]int{{0, L / 2}, {L / 2, L}, {0, L}}[i%3][0], [][2]int{{0, L / 2}, {L / 2, L}, {0, L}}[i%3][1]
+		pa, pb := near(a), near(b)
+		s, e := pa[r.Intn(len(pa))], pb[r.Intn(len(pb))]
+		if s == L {
+			s = L - 1
+		}
+		hon = append(hon, rg{s, e, false})
+	}
+	for i := 0; i < cfg.nStreamRnd; i++ {
+		s := r.Intn(L)
+		e := s + 1 + r.Intn(16)
+		if i%3 == 0 { // ends at the end of an aligned block of 2^k leaves
+			k := uint(4 + r.Intn(12))
+			blk := (1 + r.Intn(L>>k)) << k
+			s = blk - 1 - r.Intn(12)
+			e = s + 1 + r.Intn(blk-s)
+		}
+		if e > L {
+			e = L
+		}
+		hon = append(hon, rg{s, e, true})
+	}
+	seen := map[streamParam]bool{}
+	add := func(p streamParam) {
+		if p.s2 < 0 || p.e2 > L || p.s2 >= p.e2 || p.ln < 0 || seen[p] {
+			return
+		}
+		seen[p] = true
+		out = append(out, p)
+	}
+	for _, h := range hon {
+		s, e := h.s, h.e
+		full := 64 * (e - s)
+		if !h.full { // long ranges: a few alterations each (every one hashes megabytes)
+			for _, d := range []int{1 + r.Intn(8), -1 - r.Intn(8)} {
+				add(streamParam{s, e, s, e + d, full, 0})
+				add(streamParam{s, e, s, e + d, full, 1})
+				add(streamParam{s, e, s + d, e, full, r.Intn(2)})
+			}
+			add(streamParam{s, e, s, e, full - 64, 0})
+			add(streamParam{s, e, s, e, full + 64, 0})
+			continue
+		}
+		for d := -8; d <= 8; d++ {
+			if d == 0 {
+				continue
+			}
+			for pf := 0; pf < 2; pf++ {
+				add(streamParam{s, e, s, e + d, full, pf})
+				add(streamParam{s, e, s + d, e, full, pf})
+			}
+			if d >= -2 && d <= 2 {
+				add(streamParam{s, e, s + d, e + d, full, 0})
+				add(streamParam{s, e, s + d, e + d, full, 1})
+			}
+		}
+		// cut points of the claimed walk, for the honest claim and for every later claimed end
+		for e2 := e; e2 <= e+8 && e2 <= L; e2++ {
+			for i := s; i < e2; i += nextSubtree(i, e2) {
+				add(streamParam{s, e, s, e2, 64 * (i - s), 1})
+				if e2 == e || i-s == e-s {
+					add(streamParam{s, e, s, e2, 64 * (i - s), 0})
+				}
+			}
+		}
+		add(streamParam{s, e, s, e, full, 0})
+		for _, ln := range []int{full - 1, full - 63, full - 64, full - 65, full + 1, full + 64, full + 64*7 + 13} {
+			add(streamParam{s, e, s, e, ln, 0})
+		}
+	}
+	return
+}
+
 func main() {
 	if len(os.Args) >= 4 && os.Args[1] == "-goside" {
 		runSide(os.Args[2], os.Args[3])
@@ -204,7 +332,7 @@ func main() {
 	}
 	c := vlib.Start("C16")
 	cfg := cfgFor(c.Thorough)
-	c.Rule("TLC enumerates: every (n<=N,s,e) sector-root range; every non-empty set of freed sectors of n<=N (<=PermK indices in every order, larger ones in 3 orders); every (n<=N, batch<=K) append; every admissible list of <=LW mixed write actions on n<=N sectors; sector level: boundary and seeded random (s,e) leaf ranges and leaf counts handed to TLC in a params file. One case = one such tuple with the proof and roots printed by TLC, executed on the real builders/verifiers/root functions once per CPU path. Non-trivial = distinct case whose expected proof has at least one hash and on which at least one corruption was applied (free/write cases: every case; root cases: more than one leaf).")
+	c.Rule("TLC enumerates: every (n<=N,s,e) sector-root range; every non-empty set of freed sectors of n<=N (<=PermK indices in every order, larger ones in 3 orders); every (n<=N, batch<=K) append; every admissible list of <=LW mixed write actions on n<=N sectors; sector level: boundary and seeded random (s,e) leaf ranges and leaf counts handed to TLC in a params file. One case = one such tuple with the proof and roots printed by TLC, executed on the real builders/verifiers/root functions once per CPU path. Streaming verifier: TLC checks exhaustively on a sector of 8 (thorough: 16) leaves that the transcription of ReadFrom+Verify accepts exactly the honest (claimed range, data read, proof) for every claimed range, every stream length and every foreign leaf; at sector level every honest range with both ends within 8 leaves of 0, of 32768 or of 65536 (plus seeded long and random ones) is verified under every claimed end and start altered by up to 8, with streams cut at every subtree boundary of the claimed walk, inside a leaf, and over-long, with the model's verdict printed by TLC per case (non-trivial: every such case except the unaltered honest one). Non-trivial = distinct case whose expected proof has at least one hash and on which at least one corruption was applied (free/write cases: every case; root cases: more than one leaf).")
 	c.Assume("hash terms are injective by construction: everything TLC proves is relative to collision resistance of BLAKE2b")
 	c.Assume("trusted base: the term evaluator of harness/cmd/c16/term.go (N(l,r)=SumPair, L<i>=leaf, R(i,j)=plain recursive root; cross-checked against expanded TLC terms for every 0<=i<j<=16), blake2b.SumLeaf/SumPair as the hash (compared with golang.org/x/crypto blake2b-256 of prefix||block)")
 	c.Assume("soundness is claimed only with the true element count handed to the verifier")
@@ -327,6 +455,15 @@ func main() {
 		for _, n := range roots {
 			lines = append(lines, map[string]any{"k": "root", "s": 0, "e": 0, "n": n})
 		}
+		for i := range lines {
+			for _, f := range []string{"s2", "e2", "len", "pf"} {
+				lines[i][f] = 0
+			}
+		}
+		streams := streamParams(rand.New(rand.NewSource(c.Seed*31+5)), cfg)
+		for _, p := range streams {
+			lines = append(lines, map[string]any{"k": "stream", "s": p.s, "e": p.e, "n": 0, "s2": p.s2, "e2": p.e2, "len": p.ln, "pf": p.pf})
+		}
 		const chunk = 16
 		res, err := c.TLC(vlib.TLCOpts{SpecDirs: []string{"merkle"}, Module: "MerkleSector",
 			Config: "MerkleSector.cfg", // TL_ChunkSize = 16
@@ -347,9 +484,25 @@ func main() {
 		}
 		exp.Sector = parseLines[SectorCase](c, res, "SP")
 		exp.Roots = parseLines[RootCase](c, res, "SR")
-		if len(exp.Sector) != len(ranges) || len(exp.Roots) != len(roots) {
-			c.Fatal("sector shapes: %d+%d lines printed, expected %d+%d", len(exp.Sector), len(exp.Roots), len(ranges), len(roots))
+		exp.Stream = parseLines[StreamCase](c, res, "SS")
+		if len(exp.Sector) != len(ranges) || len(exp.Roots) != len(roots) || len(exp.Stream) != len(streams) {
+			c.Fatal("sector shapes: %d+%d+%d lines printed, expected %d+%d+%d", len(exp.Sector), len(exp.Roots), len(exp.Stream), len(ranges), len(roots), len(streams))
 		}
+		sort.Slice(exp.Stream, func(i, j int) bool { return exp.Stream[i].Idx < exp.Stream[j].Idx })
+		var accN int
+		for i := range exp.Stream {
+			x, p := &exp.Stream[i], streams[i]
+			if (streamParam{x.S, x.E, x.S2, x.E2, x.Len, x.Pf}) != p {
+				c.Fatal("sector shapes: stream line %d answers %+v, asked %+v", x.Idx, *x, p)
+			}
+			// every case on a sector of pairwise different leaves: the model's verdict presumes them
+			x.Sec = 0
+			if x.Accept {
+				accN++
+			}
+		}
+		c.Cov("tlc_stream_cases", len(streams))
+		c.Cov("tlc_stream_cases_model_accepts", accN)
 		sort.Slice(exp.Sector, func(i, j int) bool { return exp.Sector[i].Idx < exp.Sector[j].Idx })
 		sort.Slice(exp.Roots, func(i, j int) bool { return exp.Roots[i].Idx < exp.Roots[j].Idx })
 		for i := range exp.Sector {
@@ -365,9 +518,60 @@ func main() {
 		c.Cov("tlc_sector_ranges", len(ranges))
 		c.Cov("tlc_root_counts", len(roots))
 	}
+	// 1g. the streaming verifier on a small sector, exhaustively (states: root, s, (s,e), (s,e,s2), (s,e,s2,e2))
+	streamJob := func() {
+		res, err := c.TLC(vlib.TLCOpts{SpecDirs: []string{"merkle"}, Module: "MerkleStream", Config: "MerkleStream" + cfg.streamN + ".cfg", Workers: 4, Timeout: 14 * time.Minute, Xss: "64m"})
+		if err != nil {
+			c.Fatal("stream model: %v", err)
+		}
+		if res.Violated != "" {
+			c.Fatal("model-internal failure in MerkleStream (%s): %s", res.Violated, tailNoData(res.Out))
+		}
+		type st struct{ S, E, S2, E2, Variants, Accept int }
+		ls := parseLines[st](c, res, "ST")
+		ns, d := 8, 8
+		if cfg.streamN == "16" {
+			ns, d = 16, 2
+		}
+		abs := func(x int) int {
+			if x < 0 {
+				return -x
+			}
+			return x
+		}
+		var l1, l2, l3, l4, variants, acc int64
+		for s := 0; s < ns; s++ {
+			l1++
+			for e := s + 1; e <= ns; e++ {
+				l2++
+				for s2 := 0; s2 < ns; s2++ {
+					if abs(s2-s) > d {
+						continue
+					}
+					l3++
+					for e2 := s2 + 1; e2 <= ns; e2++ {
+						if abs(e2-e) <= d {
+							l4++
+						}
+					}
+				}
+			}
+		}
+		if res.Distinct != 1+l1+l2+l3+l4 || int64(len(ls)) != l4 {
+			c.Fatal("stream model: TLC visited %d states and printed %d cases, expected %d and %d", res.Distinct, len(ls), 1+l1+l2+l3+l4, l4)
+		}
+		for _, x := range ls {
+			variants += int64(x.Variants)
+			acc += int64(x.Accept)
+		}
+		if acc == 0 || acc*2 > variants {
+			c.Fatal("stream model: %d of %d variants are to be accepted: vacuous", acc, variants)
+		}
+		c.Cov("tlc_stream_model", map[string]any{"sector_leaves": ns, "max_index_alteration": d, "claimed_vs_honest_pairs": l4, "verifications": variants, "of_which_accept": acc})
+	}
 	// three TLC processes at a time (4 workers each)
 	var tw sync.WaitGroup
-	for _, grp := range [][]func(){{rangeJob}, {freeJob}, {xcheckJob, appendJob, writeJob, sectorJob}} {
+	for _, grp := range [][]func(){{rangeJob}, {freeJob, streamJob}, {xcheckJob, appendJob, writeJob, sectorJob}} {
 		tw.Add(1)
 		go func(grp []func()) {
 			defer tw.Done()
@@ -507,6 +711,12 @@ func main() {
 					}
 				}
 			}
+			for _, k := range []string{"stream.accept.agreed", "stream.reject.agreed", "stream.altered_end.rejected", "stream.altered_start.rejected",
+				"stream.truncated.rejected", "stream.overlong.accepted", "stream.last_leaves", "stream.first_leaves", "stream.middle_leaves", "stream.v4"} {
+				if r.Counts[k] < 10 {
+					c.Infra("vacuity: streaming-verifier class %s was exercised only %d times (GODEBUG=%q)", k, r.Counts[k], r.GODEBUG)
+				}
+			}
 			if r.Counts["primitives.blocks"] == 0 || r.Counts["roots.sector"] == 0 || r.Counts["roots.metaroot"] == 0 || r.Counts["xcheck.terms"] == 0 {
 				c.Infra("vacuity: a root/primitive class was never exercised (GODEBUG=%q)", r.GODEBUG)
 			}
@@ -614,6 +824,10 @@ func replay(c *vlib.Ctx, cfg tierCfg) {
 		var x RootCase
 		un(&x)
 		exp.Roots = []RootCase{x}
+	case "stream":
+		var x StreamCase
+		un(&x)
+		exp.Stream = []StreamCase{x}
 	case "sectorroot":
 		exp.NSectors, exp.Only = hd.Sector+1, "sectorroots"
 	case "sectorcache":
